@@ -66,7 +66,7 @@ def _install_shim() -> None:
     MAXP = _pyd.MAX_DEC_PRECISION
 
     def fast(num, den, min_prec=0):
-        if num != 0:
+        if num != 0 and den != 0:
             g = gcd(num, den)
             if not _only_2_5(den // g):
                 return 0, MAXP, 1
